@@ -198,6 +198,17 @@ func (e *Env) apply(f *Fault) {
 			}
 		}
 		desc = fmt.Sprintf("down rs%d", s)
+	case "stall":
+		// the server stops reading (and executing): writes block once Count bytes are buffered
+		s := f.Server % len(c.Servers)
+		e.Stall[s] = f.Count
+		desc = fmt.Sprintf("stall rs%d window=%d", s, f.Count)
+	case "unstall":
+		s := f.Server % len(c.Servers)
+		e.unstall(s)
+	case "dialdelay":
+		e.DialDelay = ms(f.Dur)
+		desc = fmt.Sprintf("dialdelay %v", e.DialDelay)
 	case "unsilent":
 		s := f.Server % len(c.Servers)
 		c.Servers[s].Silent = false
@@ -267,6 +278,10 @@ func (e *Env) Heal() {
 			c.SetOpening(r, false)
 		}
 	}
+	for _, s := range c.Servers {
+		e.unstall(s.Idx)
+	}
+	e.DialDelay = 0
 	e.ZK.Fail = 0
 	e.ZK.Delay = 0
 	c.MetaZK = c.Meta
@@ -282,4 +297,16 @@ func (e *Env) Heal() {
 	e.Stabilized = true
 	e.StableAt = e.Now()
 	e.StableStep = e.Step
+}
+
+func (e *Env) unstall(s int) {
+	if _, ok := e.Stall[s]; !ok {
+		return
+	}
+	delete(e.Stall, s)
+	for _, cn := range e.Conns {
+		if cn.Srv.Idx == s {
+			cn.flushHeld()
+		}
+	}
 }
